@@ -258,8 +258,8 @@ def moonZenith (lat lon : α) (utcWall : Int) : Except Err α := do
   let e ← moonElevation lat lon utcWall
   return 90.0 - e
 
-/-- moon.py:551-574 -/
-def phaseAsFloat (date : Date) : α :=
+/-- moon.py:551-571: the truncated series for the moon–sun elongation, reduced into [0, 360) -/
+def elongation (date : Date) : α :=
   let jd : α := julianDayDate date
   let dt : α := powi (jd - 2382148.0) 2 / (ofInt (41048480 * 86400))
   let t : α := (jd + dt - 2451545.0) / 36525.0
@@ -275,9 +275,13 @@ def phaseAsFloat (date : Date) : α :=
   let elong := elong - 2.10 * sin m
   let elong := elong + 1.27 * sin (2.0 * d - m1)
   let elong := elong + 0.66 * sin (2.0 * d)
-  let elong := pymod elong 360.0
-  let ei : Int := trunc elong
-  (((ofInt ei : α) + 6.43) / 360.0) * 28.0
+  pymod elong 360.0
+
+/-- moon.py:573: integer elongation → 28ths, with the fixed +6.43° offset -/
+def phaseOfElong (ei : Int) : α := (((ofInt ei : α) + 6.43) / 360.0) * 28.0
+
+/-- moon.py:551-574 -/
+def phaseAsFloat (date : Date) : α := phaseOfElong (trunc (elongation (α := α) date))
 
 /-- moon.py:577-601 -/
 def phase (date : Date) : α :=
